@@ -439,6 +439,7 @@ class Interp:
         for arm in n["arms"]:
             binds = {}
             c = self.match_pat(env, arm["pat"], scrut, binds)
+            if c is FALSE: continue
             if arm["guard"] is not None:
                 ge = env.fork(And(env.pc, notprev, c)); ge.vars.update(binds)
                 g = self.ev(ge, arm["guard"])
